@@ -2,7 +2,7 @@
 """mkmutant.py <ID> <name> <file relative to /repo> <old> <new> : create mutants/<ID>/<name>.diff by replacing a unique string."""
 import os, subprocess, sys
 pid, name, rel, old, new = sys.argv[1:6]
-repo = "/repo"
+repo = os.environ.get("VERIF_REPO", "/repo")
 p = os.path.join(repo, rel)
 s = open(p).read()
 if s.count(old) != 1:
